@@ -55,10 +55,8 @@ hc!(c01_t_c1_leaf, sk_leaf_tab(&S6_TAB), p_c01::<C1>(true));
 hc!(c01_t_e3_leaf, sk_leaf_tab(&E3_TAB), p_c01::<E3>(true));
 
 // ---- C03
-hc!(c03_t_s1_m2, sk_obj(&S1_TAB, 2, 7), p_c03::<S1>(true));
 hc!(c03_t_s3_m2, sk_obj(&S3_TAB, 2, 5), p_c03::<S3>(true));
 hc!(c03_q_e1_tag1, sk_enum(&E1_TAB, true, 0, &[1, 2, 3, 7], 1, &[4, 5, 6]), p_c03::<E1>(true));
-hc!(c03_t_s4_m3, sk_obj(&S4_TAB, 3, 5), p_c03::<S4>(true));
 hc!(c03_t_s5_m2, sk_obj(&S5_TAB, 2, 4), p_c03::<S5>(true));
 hc!(c03_t_s6_m2, sk_obj(&S6_TAB, 2, 3), p_c03::<S6>(true));
 
@@ -72,11 +70,7 @@ hc!(c04_t_s6_m2, sk_obj(&S6_TAB, 2, 3), p_c04::<S6>(true));
 hc!(c04_t_e3_leaf, sk_leaf_tab(&E3_TAB), p_c04::<E3>(false));
 
 // ---- C15: member order
-hc!(c15_t_s1_m2, sk_obj(&S1_TAB, 2, 7), p_c15::<S1>(2));
 hc!(c15_t_e1_taglast2_model, sk_enum_last(&E1_TAB, 0, &[1, 2, 3, 7], 2, &[4, 5, 6]), p_cat::<E1>(true, true));
-hc!(c15_t_s1_m3, sk_obj(&S1_TAB, 3, 7), p_c15::<S1>(3));
-hc!(c15_t_s2_m3, sk_obj(&S2_TAB, 3, 6), p_c15::<S2>(3));
-hc!(c15_t_s4_m3, sk_obj(&S4_TAB, 3, 5), p_c15::<S4>(3));
 hc!(c15_t_e2_taglast2_model, sk_enum_last(&E2_TAB, 0, &[1, 2, 6], 2, &[3, 4, 5]), p_cat::<E2>(true, true));
 
 // ---- C12: adversarial shapes (duplicate keys incl. the tag twice), free script
@@ -103,7 +97,6 @@ hc!(c03_q_s4_m1, sk_obj(&S4_TAB, 1, 5), p_c03::<S4>(true));
 hc!(c04_q_s1_m1, sk_obj(&S1_TAB, 1, 7), p_c04::<S1>(true));
 hc!(c04_q_s3_m1, sk_obj(&S3_TAB, 1, 5), p_c04::<S3>(true));
 hc!(c04_q_s4_m1, sk_obj(&S4_TAB, 1, 5), p_c04::<S4>(true));
-hc!(c15_t_s2_m2, sk_obj(&S2_TAB, 2, 6), p_c15::<S2>(2));
 hc!(c15_q_s6_m2, sk_obj(&S6_TAB, 2, 3), p_c15::<S6>(2));
 hc!(c15_q_e0_taglast_model, sk_enum_last(&E0_TAB, 0, &[1, 2, 3], 1, &[3, 1]), p_cat::<E0>(true, false));
 hc!(c15_q_e0_tag1_rev, sk_enum(&E0_TAB, true, 0, &[1, 2, 3], 1, &[3, 1]), p_c15::<E0>(0));
@@ -131,3 +124,12 @@ hc!(c02_q_s3_unk_pre, sk_obj_sets(&S3_TAB, &[&[0, 1, 3], &[3, 4]]), p_cat::<S3>(
 hc!(c03_q_s4_pre_v, sk_obj_sets(&S4_TAB, &[&[3, 1], &[0]]), p_c03::<S4>(true));
 hc!(c04_q_s5_pre_v, sk_obj_sets(&S5_TAB, &[&[1, 2], &[0]]), p_c04::<S5>(true));
 hc!(c01_q_s5_pre_v, sk_obj_sets(&S5_TAB, &[&[1, 2], &[0]]), p_c01::<S5>(false));
+
+// ---- C15 thorough for structs: two members over per-member key sets, symbolic permutation
+//      (the fully symbolic two-member two-run harnesses need > 24 GB)
+hc!(c15_t_s2_sets, sk_obj_sets(&S2_TAB, &[&[1], &[2, 3, 0]]), p_c15::<S2>(2));
+hc!(c15_t_s4_sets, sk_obj_sets(&S4_TAB, &[&[3, 1], &[0, 2]]), p_c15::<S4>(2));
+// ---- nesting (locations of depth 2 and 3): struct in struct, Vec field
+hc!(c04_q_n1_nested, sk_n1(), p_c04::<N1>(true));
+hc!(c02_t_n1_nested, sk_n1(), p_cat::<N1>(true, true));
+hc!(c01_t_n1_nested, sk_n1(), p_c01::<N1>(true));
